@@ -162,8 +162,13 @@ def set_objective(
     """
     interface = model.problem
     reverse_value = model.solver.objective.expression
+    # (the objective that comes back on context exit keeps its name, which
+    # `fix_objective_as_constraint` uses to recognize its own constraints)
     reverse_value = interface.Objective(
-        reverse_value, direction=model.solver.objective.direction, sloppy=True
+        reverse_value,
+        direction=model.solver.objective.direction,
+        sloppy=True,
+        name=model.solver.objective.name,
     )
 
     if isinstance(value, dict):
